@@ -22,6 +22,7 @@ def run(chk):
     from . import twins as _tw
     _tw.rule_copy_siblings(chk, cf.PROGRAM[0] or cf.Program(), 'X5', floor=100)
     _tw.rule_field_copies(chk, cf.PROGRAM[0] or cf.Program(), 'X4', floor=40)
+    _tw.rule_lane_suffix(chk, cf.PROGRAM[0] or cf.Program(), 'X7', floor=60)
     from . import twins
     twins.rule_common_flag(chk, P, 'Z1', floor=6)
     twins.rule_wrapper_constants(chk, P, 'X3', floor=150)
